@@ -162,11 +162,7 @@ def normalise_callee(callee):
             if k >= 0:
                 self_ty = strip_path(inner[:k])
                 trait = strip_path(inner[k + 4:])
-                tb = trait
-                kk = tb.find('<')
-                if kk > 0:
-                    tb = tb[:kk]
-                out.append('<%s as %s>' % (self_ty, tb))
+                out.append('<%s as %s>' % (self_ty, trait))
             elif not out:
                 # bare qualified type e.g. <[T]>::len  or <T>::method
                 self_ty = strip_path(inner)
